@@ -224,6 +224,17 @@ class ExprGen:
             return ["fn", "hsum", [g(fam) for _ in range(k)], {}]
         if o == "clip":
             lo, hi = sorted([d(data.value_of(fam)), d(data.value_of(fam))])
+            if fam == "float" and cfg.mixed_numeric and self.chance(4):
+                # an integer expression and / or one integer bound: the common type is still Float
+                import math
+
+                which = self.pick(["lo", "hi", "x"])
+                if which == "lo":
+                    lo = int(math.floor(lo))
+                elif which == "hi":
+                    hi = int(math.ceil(hi))
+                x = g("int") if (which == "x" or self.chance(5)) else g(fam)
+                return ["fn", "clip", [x, ["lit", enc(lo)], ["lit", enc(hi)]], {}]
             return ["fn", "clip", [g(fam), ["lit", enc(lo)], ["lit", enc(hi)]], {}]
         if o == "clipd":
             lo, hi = sorted([d(data.value_of(fam)), d(data.value_of(fam))])
